@@ -17,16 +17,15 @@ import (
 	"time"
 )
 
-
 type FuncReport struct {
-	Name        string   `json:"name"`
-	Behaviors   []string `json:"behaviors,omitempty"`
-	Obligations int      `json:"obligations"`
-	Discharged  int      `json:"discharged"`
-	Partial     bool     `json:"partial_correctness_only,omitempty"`
-	SafetyAssumed int    `json:"safety_assumed,omitempty"`
-	Notes       []string `json:"notes,omitempty"`
-	Unsupported []string `json:"unsupported,omitempty"`
+	Name          string   `json:"name"`
+	Behaviors     []string `json:"behaviors,omitempty"`
+	Obligations   int      `json:"obligations"`
+	Discharged    int      `json:"discharged"`
+	Partial       bool     `json:"partial_correctness_only,omitempty"`
+	SafetyAssumed int      `json:"safety_assumed,omitempty"`
+	Notes         []string `json:"notes,omitempty"`
+	Unsupported   []string `json:"unsupported,omitempty"`
 }
 
 type fnRun struct {
@@ -89,11 +88,11 @@ func cmdDump(args []string) int {
 
 type checkOpts struct {
 	repo, prop, tier, out, only, extern string
-	seed                        int
-	keep                        bool
-	stab                        int
-	nosolve, fast               bool
-	verbose                     bool
+	seed                                int
+	keep                                bool
+	stab                                int
+	nosolve, fast                       bool
+	verbose                             bool
 }
 
 func cmdCheck(args []string) int {
@@ -137,18 +136,19 @@ func cmdCheck(args []string) int {
 }
 
 type Report struct {
-	Prop       string
-	Funcs      []*FuncReport
-	Obls       []*Obligation
-	Failed     []*Obligation
-	WallS      float64
-	SolverMs   int64
-	ByBackend  map[string]int
-	Errors     []string
-	Externs    []string
-	Vacuity    []string
-	Unstable   []string
-	Standins   []*StandinResult
+	Prop      string
+	Funcs     []*FuncReport
+	Obls      []*Obligation
+	Failed    []*Obligation
+	WallS     float64
+	SolverMs  int64
+	ByBackend map[string]int
+	Errors    []string
+	Externs   []string
+	Vacuity   []string
+	Unstable  []string
+	Standins  []*StandinResult
+	Effects   []*effectResult
 }
 
 func runProperty(w *World, o *checkOpts) *Report {
@@ -166,11 +166,52 @@ func runProperty(w *World, o *checkOpts) *Report {
 		behavs := append([]string{""}, fc.Behavs...)
 		fr := &FuncReport{Name: fc.Pkg + "." + fc.Name, Partial: fc.Partial}
 		for _, bh := range behavs {
-			v := newFnVC(w, fc, bh)
-			err := safeRun(v)
+			// a clause that no longer fits the code (unknown local, missing call site or loop) is
+			// reported as a stale contract and dropped, so that the remaining clauses are still decided
+			cur := fc
+			var v *FnVC
+			var err error
+			for attempt := 0; attempt < 40; attempt++ {
+				v = newFnVC(w, cur, bh)
+				var stale *Clause
+				stale, err = safeRun(v)
+				if err == nil || stale == nil {
+					break
+				}
+				if relevantClause(fc, stale, o.prop) {
+					rep.Errors = append(rep.Errors, fmt.Sprintf("%s: stale contract clause: %v", v.fname, err))
+				}
+				cp := *cur
+				cp.Clauses = nil
+				for _, cl := range cur.Clauses {
+					if cl != stale {
+						cp.Clauses = append(cp.Clauses, cl)
+					}
+				}
+				cur = &cp
+			}
 			if err != nil {
 				rep.Errors = append(rep.Errors, fmt.Sprintf("%s: %v", v.fname, err))
 				continue
+			}
+			for i, gs := range fc.GhostSets {
+				tags := fc.Props
+				if i < len(fc.GhostSetTags) && fc.GhostSetTags[i] != "" {
+					tags = strings.Split(fc.GhostSetTags[i], ",")
+				}
+				if o.prop != "" && !contains(tags, o.prop) {
+					continue
+				}
+				if msg, bad := v.staleGhostSet[i]; bad {
+					rep.Errors = append(rep.Errors, fmt.Sprintf("%s: stale ghost-set %q: %s", v.fname, gs[0]+" : "+gs[1]+" = "+gs[2], msg))
+				} else if !v.usedGhostSet[i] {
+					rep.Errors = append(rep.Errors, fmt.Sprintf("%s: stale ghost-set %q: its anchor does not exist in the code", v.fname, gs[0]+" : "+gs[1]+" = "+gs[2]))
+				}
+			}
+			for _, cl := range v.unusedAnchored() {
+				if relevantClause(fc, cl, o.prop) {
+					rep.Errors = append(rep.Errors, fmt.Sprintf("%s: stale contract clause: %s:%d: its anchor or loop does not exist in the code (%q)", v.fname, cl.File, cl.Line, cl.Text))
+				}
 			}
 			if bh != "" {
 				fr.Behaviors = append(fr.Behaviors, bh)
@@ -211,6 +252,22 @@ func runProperty(w *World, o *checkOpts) *Report {
 			}
 			jobs = append(jobs, job{v, ob})
 		}
+	}
+	// effect clauses (call-graph closure, no SMT)
+	for _, d := range w.cs.Effects {
+		if o.prop != "" && !contains(d.Props, o.prop) {
+			continue
+		}
+		er := w.checkEffect(d, o.repo)
+		ob := &Obligation{Name: "effect/" + d.Func + "/" + d.Effect, Kind: "effect", Props: d.Props, Func: d.Pkg + "." + d.Func, Claimed: true,
+			Text: fmt.Sprintf("%s reaches no %s site (closure over %d functions; %d dynamic calls, %d calls leaving the module and %d appends not followed; except: %v)", d.Func, strings.TrimPrefix(d.Effect, "no"), len(er.Functions), er.Dynamic, er.External, er.Appends, er.Excepted)}
+		ob.Result = &SolveResult{Status: "unsat", Solver: "effect-closure"}
+		if len(er.Violations) > 0 {
+			ob.Result.Status = "sat"
+			ob.Result.Output = strings.Join(er.Violations, "\n")
+		}
+		rep.Effects = append(rep.Effects, er)
+		jobs = append(jobs, job{&FnVC{w: w, fname: d.Pkg + "." + d.Func, fc: &FuncContract{Pkg: d.Pkg, Name: d.Func, Props: d.Props}}, ob})
 	}
 	// table audits
 	for _, a := range w.cs.Audits {
@@ -299,6 +356,9 @@ func runProperty(w *World, o *checkOpts) *Report {
 		go func(j job) {
 			defer wg.Done()
 			defer func() { <-sem }()
+			if j.o.Result != nil {
+				return // decided without a solver (effect closure)
+			}
 			var text string
 			if j.o.RawQuery != "" {
 				text = j.o.RawQuery
@@ -360,7 +420,7 @@ func runProperty(w *World, o *checkOpts) *Report {
 	// second chance: obligations that timed out while the machine was loaded are retried alone
 	for _, j := range jobs {
 		ob := j.o
-		if ob.Cover || ob.Result.Status == "unsat" || ob.Result.Status == "sat" {
+		if ob.Cover || ob.Result.Status == "unsat" || ob.Result.Status == "sat" || ob.Kind == "effect" {
 			continue
 		}
 		if o.fast {
@@ -379,7 +439,7 @@ func runProperty(w *World, o *checkOpts) *Report {
 	searchDone := map[string]*ReplayResult{}
 	for _, j := range jobs {
 		ob := j.o
-		if ob.Cover || ob.Result.Status == "unsat" || ob.RawQuery != "" || o.fast {
+		if ob.Cover || ob.Result.Status == "unsat" || ob.RawQuery != "" || o.fast || ob.Kind == "effect" {
 			continue
 		}
 		if ob.Result.Model == nil {
@@ -482,18 +542,30 @@ func runProperty(w *World, o *checkOpts) *Report {
 	return rep
 }
 
-func safeRun(v *FnVC) (err error) {
+func safeRun(v *FnVC) (stale *Clause, err error) {
 	defer func() {
 		if r := recover(); r != nil {
 			if se, ok := r.(specError); ok {
 				err = fmt.Errorf("contract error: %s", se.msg)
+				stale = se.cl
 				return
 			}
 			panic(r)
 		}
 	}()
 	v.run()
-	return nil
+	return nil, nil
+}
+
+// relevantClause: the clause carries the property (its own tags, else the function's).
+func relevantClause(fc *FuncContract, cl *Clause, prop string) bool {
+	if prop == "" {
+		return true
+	}
+	if len(cl.Props) > 0 {
+		return contains(cl.Props, prop)
+	}
+	return contains(fc.Props, prop)
 }
 
 func contains(xs []string, x string) bool {
@@ -656,14 +728,15 @@ func (rep *Report) finish(o *checkOpts) int {
 		"property_id": o.prop, "tier": o.tier, "seed": o.seed, "level": "proof",
 		"coverage": map[string]interface{}{
 			"obligations": nObl, "discharged": nDis,
-			"checker_cmd":   fmt.Sprintf("foxvc check -repo %s -prop %s -tier %s", o.repo, o.prop, o.tier),
-			"trusted_base":  trusted,
-			"samples":       samples,
+			"checker_cmd":              fmt.Sprintf("foxvc check -repo %s -prop %s -tier %s", o.repo, o.prop, o.tier),
+			"trusted_base":             trusted,
+			"samples":                  samples,
 			"functions_under_contract": rep.Funcs,
-			"by_backend":    rep.ByBackend,
-			"solver_time_s": float64(rep.SolverMs) / 1000,
-			"vacuity_failures": rep.Vacuity,
-			"bounded":          boundedEv,
+			"by_backend":               rep.ByBackend,
+			"solver_time_s":            float64(rep.SolverMs) / 1000,
+			"vacuity_failures":         rep.Vacuity,
+			"bounded":                  boundedEv,
+			"effect_closures":          rep.Effects,
 		},
 		"assumptions": assumptions,
 		"wall_s":      rep.WallS,
